@@ -220,6 +220,26 @@ func ownEncodeRules(c *core.Ctx, a *aliasAnalysis, rule string) {
 		if !relevant {
 			continue
 		}
+		// a text codec answers octets of its own: where Encode / Decode of a codec value (a named []byte or string) succeeds,
+		// the result is not the receiver's memory (the caller goes on using - and reusing - the buffer it wrapped)
+		if fn.Signature.Recv() != nil && (fn.Name() == "Encode" || fn.Name() == "Decode") && strings.HasSuffix(load.Rel(fn.Pkg.Pkg.Path()), "datacoding") && len(fn.Params) > 0 {
+			for _, b := range fn.Blocks {
+				ret, isRet := b.Instrs[len(b.Instrs)-1].(*ssa.Return)
+				if !isRet || len(ret.Results) != 2 {
+					continue
+				}
+				if k, isK := ret.Results[1].(*ssa.Const); !isK || !k.IsNil() {
+					continue
+				}
+				var roots []ssa.Value
+				rootsOf(ret.Results[0], map[ssa.Value]bool{}, &roots)
+				for _, r := range roots {
+					if r == ssa.Value(fn.Params[0]) {
+						bad = append(bad, "on success the result returned at "+c.Prog.Pos(ret.Pos())+" is the receiver's own memory: it changes when the caller reuses the buffer the codec was made from")
+					}
+				}
+			}
+		}
 		c.Decide(len(bad) == 0, rule, funcKey(fn), c.Prog.Pos(fn.Pos()), "byte results are views neither of pooled storage nor of package-level slices", strings.Join(bad, "; "))
 	}
 	// fields that ever hold pooled objects
